@@ -118,22 +118,6 @@ theorem loc_frame {n : Nat} {s : VSt} (h : Inv n s) (t : Tid) (s' : VSt)
       exact local_noncrit _ hc hm (h.loc u)
 
 
-/-! the auxiliary match lemmas `simp`/`grind` generate for the program-point classes must
-live in this module (the step files are built in parallel and would each generate them) -/
-theorem classes_aux (pc : Pc) (k : Nat) (h : pc = .zGet k) :
-    pc.crit = true ∧ pc.zphase = true ∧ pc.zpre = true ∧ pc.mphase = false ∧ pc.mpre = false ∧
-      pc.needZip = false := by
-  simp [h, Pc.crit, Pc.zphase, Pc.zpre, Pc.mphase, Pc.mpre, Pc.needZip]
-
-theorem classes_aux2 (n : Nat) (s : VSt) (pc : Pc) (h : pc = .idle)
-    (e1 : pc.crit = true → s.lock = none) (e2 : pc.zphase = true → s.lock = none)
-    (e3 : pc.zpre = true → s.lock = none) (e4 : pc.mphase = true → s.lock = none)
-    (e5 : pc.mpre = true → s.lock = none) (e6 : pc.needZip = true → s.lock = none)
-    (e7 : Local n s pc) : True := by
-  simp only [h, Pc.crit, Pc.zphase, Pc.zpre, Pc.mphase, Pc.mpre, Pc.needZip, Local, forall_const,
-    Bool.false_eq_true, false_implies, imp_false] at e1 e2 e3 e4 e5 e6 e7
-  trivial
-
 set_option hygiene false in
 macro "open_next" : tactic => `(tactic| (
   unfold next at hn
